@@ -1,4 +1,2 @@
-From Coq Require Import ZArith NArith QArith List Bool String.
-From Falcon.lib Require Import PyStr.
-From Falcon.C11 Require Import Model Spec.
-Import ListNotations.
+(* C11 — lemmas live in ProofsNeg (negotiation) and ProofsCache (Handlers). *)
+From Falcon.C11 Require Export ProofsNeg ProofsCache.
